@@ -65,6 +65,7 @@ class World:
         self.pools: List[PoolM] = []
         self.viol: List[Violation] = []
         self.viol_seen: Dict[str, int] = {}
+        self.faults: List[BaseException] = []
         self.labels: set = set()
         self.opno = 0
         self.teardown = False
@@ -109,6 +110,19 @@ class World:
     def nseq(self) -> int:
         self.seq += 1
         return self.seq
+
+    # ------------------------------------------------------------------ injected faults
+    FAULT_TYPES = (Injected, TypeError, ValueError, KeyError, RuntimeError)
+
+    def new_fault(self, tag: str, kind: int = 0) -> Exception:
+        """An exception object the harness injects; its type varies (user code fails with all sorts of exceptions)."""
+        cls = self.FAULT_TYPES[kind % len(self.FAULT_TYPES)]
+        exc = cls(tag)
+        self.faults.append(exc)
+        return exc
+
+    def is_fault(self, exc: BaseException) -> bool:
+        return any(exc is f for f in self.faults)
 
     # ------------------------------------------------------------------ waiting on gates
     async def wait(self, tag: str, owner: Any = None) -> None:
@@ -232,7 +246,7 @@ class World:
                 world.in_user -= 1
                 rm.in_call = False
             if raised:
-                raise Injected(f"call r{rm.rid}[{idx}]")
+                raise world.new_fault(f"call r{rm.rid}[{idx}]", wspec.get("fault_kind", 0) + idx)
             return rec
 
         if plain:
@@ -334,7 +348,7 @@ class World:
                             tm.events.append("cancel@cleanup")
                     raise
             if end[0] == "raise":
-                exc = Injected(f"worker r{rm.rid}[{rec.idx}]")
+                exc = self.new_fault(f"worker r{rm.rid}[{rec.idx}]", wspec.get("fault_kind", 0))
                 tm.exc = exc
                 pm.injected.append(exc)
                 pm.fault_seen = True
@@ -343,8 +357,9 @@ class World:
         except asyncio.CancelledError:
             how = "cancel"
             raise
-        except Injected:
-            how = "raise"
+        except Exception as e:
+            if self.is_fault(e):
+                how = "raise"
             raise
         finally:
             tm.how = how
@@ -404,8 +419,8 @@ class World:
             world.ev(f"{kind}cb end {tm.pm.name}#{tm.tid}")
             world.observe(kind + "cb-")
 
-        def injected(tm: Optional[TaskM]) -> Injected:
-            exc = Injected(f"{kind}cb")
+        def injected(tm: Optional[TaskM]) -> Exception:
+            exc = world.new_fault(f"{kind}cb", spec.get("fault_kind", 0))
             if tm is not None:
                 tm.pm.injected.append(exc)
                 tm.pm.fault_seen = True
@@ -517,7 +532,7 @@ class World:
             try:
                 for j in range(n):
                     if j == raise_at:
-                        exc = Injected(f"iterator r{rm.rid}[{j}]")
+                        exc = world.new_fault(f"iterator r{rm.rid}[{j}]", spec.get("fault_kind", 0))
                         rm.pm.injected.append(exc)
                         rm.pm.fault_seen = True
                         rm.iter_failed = j  # type: ignore[attr-defined]
